@@ -12,11 +12,19 @@ def sh(cmd, cwd=None, timeout=1800):
     return p.returncode, p.stdout.decode("utf-8", "replace")
 
 def main():
+    recheck = "--recheck" in sys.argv
+    if recheck:
+        sys.argv.remove("--recheck")
     src, name = sys.argv[1], sys.argv[2]
     meta = json.load(open(os.path.join(src, "meta.json")))
     prop = meta["property"]
     props = sys.argv[3:] or [prop]
     wt = "/tmp/sv_" + name
+    if recheck:
+        # the change was confirmed before (meta.json in /verif/seeded/<name>): only re-run the checks
+        old = json.load(open(os.path.join("/verif/seeded", name, "meta.json")))
+        res = {k: old[k] for k in ("property", "summary", "needs", "ran", "confirmed") if k in old}
+        return run_checks(src, name, meta, props, res)
     sh("git -C /repo worktree remove --force %s" % wt)
     rc, out = sh("git -C /repo worktree add -q %s HEAD" % wt)
     assert rc == 0, out
@@ -43,6 +51,10 @@ def main():
         res["confirmed"] = (rc0 == 0 and rca == 0 and rcb == 0 and "suite_rc=0" in outs and rc1 != 0)
     finally:
         sh("git -C /repo worktree remove --force %s" % wt)
+    return run_checks(src, name, meta, props, res)
+
+
+def run_checks(src, name, meta, props, res):
     # run the checks against /repo with the patch applied
     dirty = sh("git -C /repo status --porcelain")[1].strip()
     assert dirty == "", "repo not clean: " + dirty
